@@ -91,6 +91,7 @@ def cases(draw, tier="quick"):
     P["purposes"] = draw(st.lists(st.tuples(st.text(min_size=1, max_size=12).filter(lambda t: "\ud800" > t or True),
                                             st.integers(1, 128)).map(list), min_size=1, max_size=3))
     n = draw(st.integers(0, 200))
+    P["closing_drops"] = draw(st.booleans())   # graceful server closes pass through the WebSocket CLOSING state
     P["tape"] = draw(st.binary(min_size=n, max_size=n))
     return P
 
